@@ -41,7 +41,9 @@ fn op_val(o: &(EditOperation, usize, usize)) -> Val {
     Val::L(vec![Val::I(k), Val::u(o.1), Val::u(o.2)])
 }
 
-const MAIN: &[&str] = &["a", "b", " ", "ä", "e\u{301}"];
+/// main alphabet, weighted: a, b, ' ' 2/9 each; ä, e+U+0301 and NBSP (a second, multi-byte
+/// whitespace, so that whitespace-for-whitespace replacement is exercised) 1/9 each
+const MAIN: &[&str] = &["a", "b", "a", "b", " ", " ", "ä", "e\u{301}", "\u{a0}"];
 const EDGE: &[&str] = &[
     "a", "b", " ", "c", "\t", "\u{a0}", "\r\n", " \u{301}", "\u{301}", "\u{3000}", "ä", "e\u{301}", "e", "\n",
 ];
@@ -105,10 +107,33 @@ impl Prop for C12 {
         let fl = i % 16;
         let (g, swap, sid, norm) = (fl & 1 != 0, fl & 2 != 0, fl & 4 != 0, fl & 8 != 0);
         let stream = rng.below(100);
-        let (a, b): (Vec<&str>, Vec<&str>) = if stream < 55 {
+        let (a, b): (Vec<&str>, Vec<&str>) = if stream < 30 {
             let n = rng.below(10);
             let a = rand_units(rng, n, false);
             let b = mutate(rng, &a, false);
+            if rng.chance(1, 2) { (a, b) } else { (b, a) }
+        } else if stream < 55 {
+            // transposition-rich: 1-3 adjacent transpositions (possibly overlapping, which
+            // optimal string alignment cannot undo with swaps alone), half the time one more edit
+            let n = rng.range(2, 9);
+            let a = rand_units(rng, n, false);
+            let mut b = a.clone();
+            for _ in 0..rng.range(1, 3) {
+                let p = rng.below(b.len() - 1);
+                b.swap(p, p + 1);
+            }
+            if rng.chance(1, 2) {
+                let p = rng.below(b.len() + 1);
+                match rng.below(3) {
+                    0 => b.insert(p, unit(rng, false)),
+                    1 if p < b.len() => {
+                        b.remove(p);
+                    }
+                    _ if p < b.len() => b[p] = unit(rng, false),
+                    _ => {}
+                }
+                b.truncate(9);
+            }
             if rng.chance(1, 2) { (a, b) } else { (b, a) }
         } else if stream < 80 {
             let (n, m) = (rng.below(10), rng.below(10));
